@@ -178,6 +178,11 @@ func genFamily(rt *rapid.T, fam int, sp GraphSpec) (n int, es []iedge) {
 // capDensity bounds the number of edges of graphs with more than 10 nodes to 3 per node: very dense multigraphs with
 // dozens of nodes cost seconds per layout (122 edges on 12 nodes: 6 s) without adding structure the small dense cases lack.
 func capDensity(n, m int) int {
+	if n > 24 {
+		// beyond two dozen nodes at most 2 edges per node: 37 nodes / 111 edges with longest-path layering cost 12 s per
+		// layout (thousands of helper nodes), which under a loaded machine and 5 repetitions (C07) ran into the watchdog
+		return min(m, 2*n+4)
+	}
 	if n > 10 || m > 40 {
 		return min(m, 3*n+4)
 	}
@@ -287,10 +292,19 @@ func genBundle(rt *rapid.T, sp GraphSpec) (int, []iedge) {
 	if huge {
 		// A bundle of 250+ copies must stay a SHORT edge: as a long edge it puts 250+ helper nodes into every band it
 		// crosses and the ordering phase then needs minutes (measured; a cost cliff, not a hang). In an acyclic skeleton an
-		// edge u->v is short under both layerers when v cannot be reached from u any other way, so only such edges qualify.
+		// edge u->v is short under both layerers when v is u's ONLY successor (longest path: height(u) = height(v)+1;
+		// network simplex: the heavy bundle is tight in every optimum), so only such edges qualify. (A first version only
+		// required "no other path from u to v", which is not enough under longest-path layering: 283 copies as a long edge
+		// killed a thorough shard.)
 		var ok []int
 		for i, e := range es {
-			if !reachableWithout(es, i, e[0], e[1]) {
+			only := true
+			for _, f := range es {
+				if f[0] == e[0] && f[1] != e[1] {
+					only = false
+				}
+			}
+			if only && !reachableWithout(es, i, e[0], e[1]) {
 				ok = append(ok, i)
 			}
 		}
